@@ -28,8 +28,8 @@ REACH = [
     "insights/contrib/toposort.py::toposort",
 ]
 PLAN = {
-    "quick": {"shards": 8, "cases": 250, "timeout_s": 600, "min_evaluations": 1000,
-              "min_counters": {"process_events": 3000, "attempt_events": 3000}},
+    "quick": {"shards": 8, "cases": 1500, "timeout_s": 600, "min_evaluations": 6000,
+              "min_counters": {"process_events": 18000, "attempt_events": 18000}},
     "thorough": {"shards": 16, "cases": 4000, "timeout_s": 3000, "min_evaluations": 30000,
                  "min_counters": {"process_events": 100000}},
 }
